@@ -414,6 +414,7 @@ func TestVerifC10(t *testing.T) {
 			return
 		}
 		c := &advCase{ID: id, Min: 20 * time.Second, Max: 30 * time.Second, Fwd: true, Terminate: true, UnicastOnly: unicastOnly, Seed: time.Duration(seed), FwdLat: lat, WriteLat: lat}
+		c.Monitor = strings.HasPrefix(id, "monfault/")
 		// a solicitation that is answered before the fault
 		c.Steps = append(c.Steps, advStep{At: fl.at - 2*time.Second, Kind: "rs", Src: "fe80::a:1"})
 		expect := "continue" // continue | redial | error
@@ -586,8 +587,19 @@ func TestVerifC10(t *testing.T) {
 				}
 			}
 		}
-		// everything the C07 oracle says about answers still applies
-		advC07(r, c, res)
+		// everything the C07 oracle says about answers still applies (a monitor
+		// answers nothing, but must keep reading)
+		if c.Monitor {
+			for _, e := range ev {
+				if e.Kind == "write_begin" {
+					r.Violation(id, "monitor-transmits", "a monitoring interface transmitted a packet", det())
+					return
+				}
+			}
+			advTaken(r, c, res)
+		} else {
+			advC07(r, c, res)
+		}
 		if r.WantSample() && expect == "redial" {
 			r.Sample(map[string]any{"id": id, "fault": fl.kind, "expected": expect, "trace": vfake.Strings(vOnly(ev, "read_error", "link_event", "write_end", "dial", "run_return", "cancel", "write_begin"), 24)})
 		}
@@ -595,6 +607,14 @@ func TestVerifC10(t *testing.T) {
 
 	kinds := []string{"read:syscall", "read:perm", "read:other", "timeouts:1", "timeouts:2", "timeouts:3", "timeouts:4", "timeouts:5", "timeouts:6",
 		"write:nobufs", "write:perm", "write:other", "writepending:nobufs", "writepending:other", "writeall:nobufs", "writeall:perm", "link", "watchclose"}
+	// the same read-side faults against a Monitor task
+	mreps := r.Pick(4, 40)
+	for _, k := range []string{"read:syscall", "read:perm", "read:other", "timeouts:1", "timeouts:4", "timeouts:5", "timeouts:6", "link", "watchclose"} {
+		for rep := 0; rep < mreps; rep++ {
+			at := 4*time.Second + time.Duration(rr.Int63n(int64(8*time.Second)))
+			run(fmt.Sprintf("monfault/%s/%d", k, rep), fault{k, at}, false, 0, rr.Int63n(1e9))
+		}
+	}
 	i := 0
 	reps := r.Pick(3, 40)
 	for _, k := range kinds {
